@@ -65,6 +65,7 @@ type KOpts struct {
 	NoCustom    bool
 	NoInjected  bool
 	OnlyCLI     bool // C16: restrict to the nine two-channel options
+	CustomRich  bool // C17: custom_types entries are frequent
 	Sort        *bool
 }
 
@@ -115,6 +116,14 @@ func refDepth(f *ir.File, name string, guard int) int {
 		}
 	}
 	return d
+}
+
+// Rebase returns a copy of c with the package options of layout l.
+func Rebase(c *ir.Config, l *ir.Layout, setTarget bool) *ir.Config {
+	out := ir.Clone(c)
+	out.DefaultPackageName, out.TargetPackageName, out.ImportPathOverrides = "", "", nil
+	applyLayout(out, l, setTarget)
+	return out
 }
 
 func applyLayout(c *ir.Config, l *ir.Layout, setTarget bool) {
@@ -302,7 +311,11 @@ func FieldOptions(t *rapid.T, f *ir.File, c *ir.Config, o KOpts) {
 				continue
 			}
 			// A Message.Field exclusion/override of the same field elsewhere is unaffected.
-			if rapid.IntRange(0, p+6).Draw(t, fmt.Sprintf("ct%d", i)) == 0 {
+			pc := p + 6
+			if o.CustomRich {
+				pc = 2
+			}
+			if rapid.IntRange(0, pc).Draw(t, fmt.Sprintf("ct%d", i)) == 0 {
 				ct := rapid.SampledFrom(cts).Draw(t, "ctname")
 				c.CustomTypes[oc.FullKey] = ct
 				if rapid.Bool().Draw(t, "ctsuffix") {
